@@ -261,30 +261,6 @@ Definition registered (s : st) (ids : list Z) : list Z :=
 Definition disp_code (s : st) : Z :=
   match d s with DIdle => 0 | DGot _ _ => 1 | DHave _ _ _ => 2 | DLocked _ _ _ => 3 | DWaitRcv => 4 | DExited => 5 end.
 
-(* the dispatcher holds a popped OpenSecureChannelResponse for caller t *)
-Definition disp_holds_opn (s : st) (t : tid) : bool :=
-  match d s with
-  | DHave _ m ch | DLocked _ m ch => Nat.eqb ch t && is_opn m
-  | _ => false
-  end.
-
-Definition is_open_kind (c : cpc) : bool :=
-  match c with CHasId KOpen _ _ | CRegd KOpen _ _ | CWait KOpen _ _ | CDone KOpen _ _ _ => true | _ => false end.
-
-(* the runs on which the receive gate is used as intended: an OpenSecureChannelResponse is only ever matched with a
-   handler registered by open(), and open() does not give up (timer, ctx, disconnect, send error) in the window in
-   which the dispatcher has already taken its handler but not yet delivered *)
-Definition gate_ok (s : st) (e : ev) : bool :=
-  match e with
-  | ETimer t | ECtx t | EDisc t | EWrite t false => negb (disp_holds_opn s t)
-  | EPop =>
-      match d s with
-      | DGot _ m => if is_opn m then match handlers s (m_id m) with Some t => is_open_kind (cs s t) | None => true end else true
-      | _ => true
-      end
-  | _ => true
-  end.
-
 (* ---- vocabulary of the harness (go/cmd/schedharness): observed histories are replayed through the model ---- *)
 
 Inductive hev :=
